@@ -174,6 +174,16 @@ fn index_to_seq(mut idx: u64, max_len: usize) -> Vec<&'static str> {
 }
 
 const MORE: &[&str] = &[
+    // bracketed names that are sections elsewhere in the osu! ecosystem but not in a beatmap: not headers here
+    "[Fonts]",
+    "[Storyboard]",
+    "[Skin]",
+    "[Colors]",
+    "[TimingPoint]",
+    "[HitObject]",
+    "[Event]",
+    "[GENERAL]",
+    "[Metadata ]",
     "AudioFilename: a.mp3",
     "Mode: 3",
     "Bookmarks: 1,2,3",
